@@ -23,8 +23,18 @@ class Case:
     label: str = ""  # shape signature, used for evidence and for violation signatures
 
 
-def pack(cases: list[Case], per_module: int = 250, prefix: str = "m", extra_files: dict[str, str] | None = None) -> tuple[dict[str, str], str]:
-    """Render cases into vpkg/<prefix>NNNN.py modules (per_module cases each).  Deterministic in the case list."""
+def pack(
+    cases: list[Case],
+    per_module: int = 250,
+    prefix: str = "m",
+    extra_files: dict[str, str] | None = None,
+    header=None,
+) -> tuple[dict[str, str], str]:
+    """Render cases into vpkg/<prefix>NNNN.py modules (per_module cases each).  Deterministic in the case list.
+
+    header(module_name) -> str is prepended to each module; the placeholder @MOD@ in case sources and headers is
+    replaced by the module name (for per-module unique helper names).
+    """
     files: dict[str, str] = {f"{PKG}/__init__.py": ""}
     for i in range(0, len(cases), per_module):
         chunk = cases[i : i + per_module]
@@ -34,7 +44,10 @@ def pack(cases: list[Case], per_module: int = 250, prefix: str = "m", extra_file
                 if imp not in imports:
                     imports.append(imp)
         name = f"{prefix}{chunk[0].cid:06d}"
-        files[f"{PKG}/{name}.py"] = "\n".join(imports) + ("\n\n\n" if imports else "") + "\n\n\n".join(c.src.rstrip("\n") for c in chunk) + "\n"
+        text = "\n".join(imports) + ("\n\n\n" if imports else "") + "\n\n\n".join(c.src.rstrip("\n") for c in chunk) + "\n"
+        if header is not None:
+            text = header(name) + text
+        files[f"{PKG}/{name}.py"] = text.replace("@MOD@", name)
     if extra_files:
         files.update(extra_files)
     return files, PKG
@@ -49,6 +62,12 @@ class StubIndex:
     def find(self, py_name: str, kind: str | None = None) -> list[tuple[str, tuple[str, ...], SdsDecl]]:
         hits = self.by_name.get(py_name, [])
         return [h for h in hits if kind is None or h[2].kind == kind]
+
+
+def module_of(cases: list[Case], case: Case, per_module: int = 250, prefix: str = "m") -> str:
+    """Name of the module pack() put `case` in, given the same case list."""
+    i = cases.index(case)
+    return f"{prefix}{cases[i - i % per_module].cid:06d}"
 
 
 def index_stubs(obs: Obs) -> StubIndex:
